@@ -15,5 +15,5 @@ func Int64N(n int64) int64 {
 	}
 	return 0
 }
-func IntN(n int) int       { return int(Int64N(int64(n))) }
+func IntN(n int) int          { return int(Int64N(int64(n))) }
 func Uint64N(n uint64) uint64 { return uint64(Int64N(int64(n))) }
